@@ -34,6 +34,12 @@ Definition mk_rows {A} (valid : list bool) (vals : list A) : list (option A) :=
   map2 (fun (b : bool) v => if b then Some v else None) valid vals.
 
 (* logical rows as spec values, from groups (i, i+1, i+2) *)
+(* BYTE_ARRAY decimals are written as big-endian two's complement byte strings of any length: the
+   input rows are bytes, their logical value is the signed big-endian number *)
+Definition be_signed (b : bytes) : Z := signed_of (List.length b) (le_unsigned (rev b)).
+Definition in_rows_at (k : kind) (i : nat) (a : args) : list (option value) :=
+  mk_rows (bools_of (arg i a)) (map (fun b => inl (be_signed b) : value) (blobs_at (S i) a)).
+
 Definition rows_at (k : kind) (i : nat) (a : args) : list (option value) :=
   let valid := bools_of (arg i a) in
   if is_byte_kind k then mk_rows valid (map (fun b => inr b : value) (blobs_at (S i) a))
@@ -62,7 +68,7 @@ Fixpoint mk_page_obs (nps : list bool) (ncs : list Z) (mins maxs : list bytes) :
 (* ------------------------------------------------------------------ c07.file.spec *)
 Definition s_file (a : args) : list (list Z) :=
   let k := kind_of a in let fl := flen_of a in
-  let rows := rows_at k 1 a in
+  let rows := match k with KDBA => in_rows_at k 1 a | _ => rows_at k 1 a end in
   let starts := nats_of (arg 4 a) in
   let f := arg 5 a in
   let fz i := nth i f 0%Z in
@@ -116,7 +122,7 @@ Definition s_file (a : args) : list (list Z) :=
 Definition tl_stats_of (a : args) : option nat := optnat (cfg 5 a).
 Definition tl_index_of (a : args) : option nat := optnat (cfg 6 a).
 
-Definition can_trunc_kind (k : kind) : bool := match k with KUTF8 | KBIN | KFSB | KIVL => true | _ => false end.
+Definition can_trunc_kind (k : kind) : bool := match k with KUTF8 | KBIN | KFSB | KIVL | KDBA => true | _ => false end.
 
 Record prediction := {
   pr_min : option (bytes * bool); pr_max : option (bytes * bool); pr_nulls : nat; pr_nans : option nat;
@@ -159,7 +165,7 @@ Definition d_file (a : args) : list (list Z) :=
   let valid := bools_of (arg 1 a) in
   let pred :=
     if phys_bytes k then
-      let vals := if is_byte_kind k then blobs_at 2 a
+      let vals := if is_byte_kind k || match k with KDBA => true | _ => false end then blobs_at 2 a
                   else map (bytes_of_logical k fl) (arg 2 a) in
       predict_b k page_level (tl_stats_of a) (tl_index_of a) bs (page_rows (mk_rows valid vals) starts)
     else
@@ -257,7 +263,7 @@ Fixpoint conv_pages (k : kind) (pages : list (list (option value))) (mins maxs :
 
 Definition s_conv (a : args) : list (list Z) :=
   let k := kind_of a in
-  let rows := rows_at k 1 a in
+  let rows := match k with KDBA => in_rows_at k 1 a | _ => rows_at k 1 a end in
   let f := arg 5 a in
   let fz i := nth i f 0%Z in
   if (fz 0%nat =? 0)%Z then [[ok]] else
